@@ -326,6 +326,9 @@ SCHEMA = {
     108: ("eui6", ["eui"]), 109: ("eui8", ["eui"]),
     CH_A: ("n o16", ["domain", "address"]),
     20: ("q qopt", ["address", "subaddress"]),
+    # composite kinds take several constructor arguments / attributes
+    45: ("d8 gwi b64e", ["precedence", ("gateway_type", "algorithm", "gateway"), "key"]),
+    260: ("d8 d1 gwa", ["precedence", "discovery_optional", ("relay_type", "relay")]),
     55: ("d8 hexstr b64tok names", ["algorithm", "hit", "key", "servers"]),      # text order; constructor: hit, algorithm, ...
     249: ("nnr d32 d32 d16 d16 b64tok b64opt", ["algorithm", "inception", "expiration", "mode", "error", "key", "other"]),
     104: ("d16 fmthex", ["preference", "nodeid"]), 106: ("d16 fmthex", ["preference", "locator64"]),
@@ -336,7 +339,7 @@ SCHEMA = {
     16: ("txt", ["strings"]), 99: ("txt", ["strings"]), 258: ("txt", ["strings"]), 56: ("txt", ["strings"]),
     261: ("txt", ["strings"]), 262: ("txt", ["strings"]),
 }
-MAXV = {"o16": 65535, "d8": 255, "d16": 65535, "d32": 2**32 - 1, "ttl": 2**32 - 1, "i8": 255, "i16": 65535}
+MAXV = {"d1": 1, "o16": 65535, "d8": 255, "d16": 65535, "d32": 2**32 - 1, "ttl": 2**32 - 1, "i8": 255, "i16": 65535}
 # signature times around day / month / leap-year / century boundaries and the ends of the 32-bit range
 SIGTIMES = [0, 1, 59, 60, 3599, 3600, 86399, 86400, 68169599, 68169600, 951782399, 951782400, 951868799, 951868800,
             1709164800, 1709251199, 1709251200, 2**31 - 1, 2**31, 4107542399, 4107542400, 4294967295]
@@ -368,6 +371,13 @@ def gen_field(rng, kind):
         return rng.choice([0, 1, 2, 23, 46, 47, 48, 59, 60, 62, 255, 256, 257, 262, 263, 32768, 32769, 65535, rng.randrange(65536)])
     if kind == "ectype":
         return rng.choice([0, 1, 2, 3, 4, 5, 6, 7, 8, 9, 252, 253, 254, 255, 65535, rng.randrange(65536)])
+    if kind in ("gwi", "gwa"):
+        g = rng.choice([0, 1, 2, 3, 3])
+        a = rng.choice([0, 1, 2, 255, rng.randrange(256)]) if kind == "gwi" else 0
+        gw = 0 if g == 0 else enc(dns.ipv4.inet_ntoa(gen_field(rng, "a4"))) if g == 1 else enc(dns.ipv6.inet_ntoa(gen_v6(rng))) if g == 2 else gen_field(rng, "n")
+        return [g, a, gw]
+    if kind == "b64e":
+        return b"" if rng.random() < 0.3 else (gen_bytes(rng, 60) or b"\x01")
     if kind == "qopt":
         return b"" if rng.random() < 0.4 else gen_field(rng, "q1")
     if kind in ("hexstr", "b64tok"):
@@ -443,11 +453,26 @@ def mkname(ls):
     return None if ls is None else dns.name.Name(ls)
 
 
+def gw_enc(g):
+    return 0 if g is None else enc(g) if isinstance(g, str) else nl.labels_of(g)
+
+
 def build_rdata(rdtype, vals):
     kinds = SCHEMA[rdtype][0].split()
     args = [mkname(v) if k in ("n", "nnr") else [mkname(x) for x in v] if k == "names" else [(w, bytes(b)) for w, b in v] if k == "bm"
             else bytes(v).decode("latin-1") if k == "fmthex" else v
             for k, v in zip(kinds, vals)]
+    flat = []
+    for k, a in zip(kinds, args):
+        if k in ("gwi", "gwa"):
+            g, alg, gw = a
+            gwo = None if gw == 0 else mkname(gw) if g == 3 else dec(gw)
+            flat += [g, alg, gwo] if k == "gwi" else [g, gwo]
+        elif k == "d1":
+            flat.append(bool(a))
+        else:
+            flat.append(a)
+    args = flat
     rdclass, rdt = class_type(rdtype)
     cls = dns.rdata.get_rdata_class(rdclass, rdt)
     if rdt == 55:
@@ -700,7 +725,7 @@ def in_model(kind, case):
         text = dec(case[2])
         # names go through the IDNA codec when the text is not ASCII; the generic-syntax branch of a
         # schema type needs the wire codec (C02): neither is part of this model
-        if any(ord(c) > 127 for c in text) and (set(SCHEMA[case[1]][0].split()) & {"n", "nnr", "names", "bm", "etype", "escheme", "ectype", "ealg", "ealgnum", "sigtime", "alg"}):
+        if any(ord(c) > 127 for c in text) and (set(SCHEMA[case[1]][0].split()) & {"n", "nnr", "names", "gwi", "gwa", "bm", "etype", "escheme", "ectype", "ealg", "ealgnum", "sigtime", "alg"}):
             return False
         if "a6" in SCHEMA[case[1]][0] and ("\\" in text or any(ord(c) > 127 for c in text)):
             # escapes can put a line break into the address text (regular-expression corner case)
@@ -842,7 +867,7 @@ def impl(case):
                                      relativize_to=mkname(relto))
             out = []
             for k, a in zip(SCHEMA[case[1]][0].split(), SCHEMA[case[1]][1]):
-                v = getattr(rd, a)
+                v = tuple(getattr(rd, x) for x in a) if isinstance(a, tuple) else getattr(rd, a)
                 if k == "bm":
                     out.append([[int(w), bytes(b)] for w, b in v])
                     continue
@@ -851,6 +876,9 @@ def impl(case):
                     continue
                 if k == "names":
                     out.append([nl.labels_of(x) for x in v])
+                    continue
+                if k in ("gwi", "gwa"):
+                    out.append([int(v[0]), int(v[1]) if k == "gwi" else 0, gw_enc(v[-1])])
                     continue
                 if k == "nnr":
                     out.append(nl.labels_of(v))
